@@ -54,6 +54,11 @@ REORDER = re.compile(r"(Iterator::|Iterator>::)(rev|filter|filter_map|skip|take|
 LAZY = re.compile(r"(Iterator::|Iterator>::)(map|inspect|by_ref|copied|cloned|enumerate|fuse|map_while)$|IntoIterator>::into_iter$")
 # plumbing that hands a value on unchanged (besides references): `?`, clone, deref/borrow of an owning wrapper
 FAITHFUL = re.compile(r"as std::ops::Try>::branch$|as std::clone::Clone>::clone$|as std::ops::Deref>::deref$|as std::borrow::Borrow<.*>>::borrow$|as std::convert::AsRef<.*>>::as_ref$|^std::borrow::Cow::<.*>::(into_owned|to_mut)$|as std::borrow::ToOwned>::to_owned$")
+READ_ONLY = re.compile(r"::(len|is_empty|capacity|iter|as_slice|first|last|get|contains|as_ptr|reserve|reserve_exact|shrink_to_fit)$|as std::ops::Deref>::deref$|as std::clone::Clone>::clone$|as std::convert::AsRef<.*>>::as_ref$|as std::borrow::Borrow<.*>>::borrow$|IntoIterator>::into_iter$")
+# serde_json's kind accessors: Some exactly for a value of that kind (as_f64 / as_i64 / as_u64 are not: they depend on the number)
+FIRST_ELEMENT_TEST = re.compile(r"^[\w:{}#<>, ]*::(is_none|is_some)\((?:\(ref )?[\w:{}#<>, ]*::(?:first|last)\(")
+KIND_ACCESSOR = {"serde_json::Value::as_null": "Null", "serde_json::Value::as_bool": "Bool", "serde_json::Value::as_number": "Number",
+                 "serde_json::Value::as_str": "String", "serde_json::Value::as_array": "Array", "serde_json::Value::as_object": "Object"}
 EMPTY_CTOR = re.compile(r"Vec::<T>::(new|with_capacity)$|^std::iter::empty$|Default>::default$")
 
 
@@ -245,6 +250,16 @@ def peel(roles, e):
             if c.get("key") == ck or ck in fwd or FAITHFUL.search(c.get("path", "")):
                 e = e[2][0]
                 continue
+            if optnorm.M.match(c.get("path", "")) and FACTS[0] is not None:
+                # an Option/Result combinator over a constructor the path knows (`holder.as_ref().unwrap_or(operand)`
+                # with holder = None / Some(evaluated)): the one value it hands on
+                try:
+                    sub = optnorm.cases_expr(FACTS[0], e)
+                except Exception:
+                    sub = None
+                if sub and len(sub) == 1 and not sub[0][0] and isinstance(sub[0][1], tuple) and strip_refs(sub[0][1]) != e and sub[0][1][0] not in ("panic", "default", "error"):
+                    e = sub[0][1]
+                    continue
         return e
     return e
 
@@ -299,8 +314,34 @@ def matrix(ctx, roles, u, coll_sites, adaptor_bi, pred_sites=(), name="", cfg=""
 
     lossy = set()
 
-    def classify_receiver(recv):
+    def filled_in_place(w, recv):
+        """What is put into a container that the receiver builds in place (`let mut v = Vec::new(); for c in … { v.push(..) }`):
+        the other operands of every call, on any path of this case (the iterations of a loop included), that is handed
+        the freshly constructed container and is not one of std's read-only accessors.  The collection then is what
+        these calls put into it, as `collect()` of an adaptor chain is what the chain yields."""
+        sites = set()
+        expr_mentions(recv, lambda x: sites.add(x[3]) if x[0] == "call" and x[1] and len(x) > 3 and EMPTY_CTOR.search(x[1].get("path", "")) else False)
+        out, seen = [], set()
+        if not sites:
+            return out
+        for q in w.paths:
+            for ev in q.events:
+                if ev[1] is None or len(ev[2]) < 2 or (ev[3], len(ev[2])) in seen:
+                    continue
+                tgt = strip_refs(ev[2][0])
+                if not (tgt[0] == "call" and len(tgt) > 3 and tgt[3] in sites and tgt[3] != ev[3]):
+                    continue
+                if READ_ONLY.search(ev[1].get("path", "")):
+                    continue
+                seen.add((ev[3], len(ev[2])))
+                out.extend(ev[2][1:])
+        return out
+
+    def classify_receiver(recv, w=None):
         """What the iteration runs over, read off the path-local expression of the iterator."""
+        fill = filled_in_place(w, recv) if w is not None else []
+        if fill:
+            recv = ("agg", {"agg": "fields"}, [recv] + fill)
         calls = []
         expr_mentions(recv, lambda x: calls.append(x) if x[0] == "call" and x[1] else False)
         ext = {c[1]["path"] for c in calls if not c[1].get("local")}
@@ -311,8 +352,9 @@ def matrix(ctx, roles, u, coll_sites, adaptor_bi, pred_sites=(), name="", cfg=""
             for k in facts.reach(roots):
                 ext |= extm.get(k, set())
         bad = sorted(q for q in ext if BAD_SPLIT.search(q))
-        from_array = expr_mentions(recv, lambda x: x[0] == "downcast" and x[2] == "Array")
-        from_string = expr_mentions(recv, lambda x: x[0] == "downcast" and x[2] == "String")
+        acc = lambda kind: (lambda x: x[0] == "call" and x[1] and KIND_ACCESSOR.get(x[1].get("path")) == kind)
+        from_array = expr_mentions(recv, lambda x: x[0] == "downcast" and x[2] == "Array") or expr_mentions(recv, acc("Array"))
+        from_string = expr_mentions(recv, lambda x: x[0] == "downcast" and x[2] == "String") or expr_mentions(recv, acc("String"))
         if from_array and not from_string:
             return "ITER(elements)"
         if from_string and not from_array:
@@ -330,6 +372,20 @@ def matrix(ctx, roles, u, coll_sites, adaptor_bi, pred_sites=(), name="", cfg=""
 
         def known(e, adt, _o=o, _eff=eff, record=True):
             if adt != VALUE:
+                # `v.as_str()` is Some exactly for a string (serde_json's kind accessors): on a value whose kind the case
+                # fixes, the question is decided — as the `match` spelling of it is; also through combinators that keep
+                # the variant (`v.as_str().map(..)`)
+                inner, ren = pathsum.through_variant_preserving(e)
+                base = strip_refs(inner if inner is not None else e)
+                if base[0] == "call" and base[1] and base[1].get("path") in KIND_ACCESSOR and base[2]:
+                    k = known(base[2][0], VALUE, record=False)
+                    if k is None:
+                        return None
+                    var = "Some" if k == KIND_ACCESSOR[base[1]["path"]] else "None"
+                    if ren:
+                        back = [o_ for o_, i_ in ren.items() if i_ == var]
+                        return back[0] if len(back) == 1 else None
+                    return var
                 return None
             x = peel(roles, e)
             if is_operand0(x):
@@ -352,7 +408,7 @@ def matrix(ctx, roles, u, coll_sites, adaptor_bi, pred_sites=(), name="", cfg=""
             ks = set()
             for q in reach:
                 ev = [x for x in q.events if x[3] == adaptor_bi]
-                ks.add(classify_receiver(ev[0][2][0]) if ev and ev[0][2] else "ITER(?)")
+                ks.add(classify_receiver(ev[0][2][0], w) if ev and ev[0][2] else "ITER(?)")
             kind = ks.pop() if len(ks) == 1 else "MIXED(%s)" % ", ".join(sorted(ks))
         else:
             outs = [q for q in w.paths if not q.truncated]
@@ -504,8 +560,16 @@ def negation(ctx, roles, none_b, some_b, cfg):
         return None
     core = src[1]["key"]
     args = [strip_refs(a) for a in src[2]]
-    ctx.check(args == [("arg", 1), ("arg", 2)], "K1.same-operands", "none passes its own (data, operands) in order (%s)" % cfg, "the core is called with %s" % [show_expr(a) for a in args], where=where, fn=none_b.key, nontrivial=True)
-    if core == some_b.key:
+
+    def constant(a, depth=0):
+        """An argument that is the same value at every call: a constant, or an aggregate of constants (the unit variant
+        of a mode enum that tells a shared core which question is asked)."""
+        a = strip_refs(a)
+        return a[0] == "const" or (a[0] == "agg" and not a[1].get("closure") and depth < 4 and all(constant(x, depth + 1) for x in a[2]))
+    # what the core is given besides constants is none's own (data, operands), in order; that the constants are the ones
+    # `some` passes is part of K1.calls-some (same call = same argument list)
+    ctx.check([a for a in args if not constant(a)] == [("arg", 1), ("arg", 2)], "K1.same-operands", "none passes its own (data, operands) in order (%s)" % cfg, "the core is called with %s" % [show_expr(a) for a in args], where=where, fn=none_b.key, nontrivial=True)
+    if core == some_b.key and args == [("arg", 1), ("arg", 2)]:
         ctx.ok("K1.calls-some", "none negates the function bound to `some` (%s)" % cfg, nontrivial=True)
         return core
     # none and some share a core: some must be Bool(b) of the same call with its own (data, operands)
@@ -514,7 +578,7 @@ def negation(ctx, roles, none_b, some_b, cfg):
         ctx.unread("K1.calls-some", "some (%s)" % cfg, "none negates %s; the function bound to `some` is not read as a decision over the same call" % core, where=some_b.where(), fn=some_b.key)
         return core
     g2, b2, s2 = rs
-    same = bool(g2) and not b2 and all(s2.get(g[1]) is not None and s2[g[1]][0] == "call" and s2[g[1]][1] and s2[g[1]][1].get("key") == core and [strip_refs(a) for a in s2[g[1]][2]] == [("arg", 1), ("arg", 2)] for g in g2)
+    same = bool(g2) and not b2 and all(s2.get(g[1]) is not None and s2[g[1]][0] == "call" and s2[g[1]][1] and s2[g[1]][1].get("key") == core and [strip_refs(a) for a in s2[g[1]][2]] == args for g in g2)
     kinds = {g[0] for g in good}, {g[0] for g in g2}
     same = same and ((kinds[0] == {"bool"} and kinds[1] == {"bool"}) or (kinds[0] == {"bool-of-value"} and kinds[1] <= {"value", "bool-of-value"}))
     ctx.check(same, "K1.calls-some", "none negates the boolean that some returns: both are built from one call of %s with their own (data, operands) (%s)" % (core.split("::")[-1], cfg),
@@ -531,6 +595,13 @@ def emptiness(p):
             return bool(val)
         if key[0] == "int" and "::len(" in key[1]:
             return val == 0
+        # "has it a first element?": `items.first().is_none()`, `match items.first() { None => … }`
+        if key[0] == "pure" and isinstance(val, bool):
+            m = FIRST_ELEMENT_TEST.match(key[1])
+            if m:
+                return val if m.group(1) == "is_none" else (not val)
+        if key[0] == "variant" and re.match(r"^[\w:{}#<>, ]*::(first|last)\(", key[1]) and val in ("None", "Some"):
+            return val == "None"
     return None
 
 
@@ -592,6 +663,33 @@ def verdict_on(facts, w, body, p, tkeys):
     return got
 
 
+def bool_on_path(facts, w, body, p, e):
+    """The boolean an expression stands for on one path: a constant (bool_of), or the very value a switch of the
+    path has decided (`result = verdict; if !result { break }; … Ok(Bool(result))`: on the path that left the loop,
+    `result` is false)."""
+    v = bool_of(facts, e)
+    if v is not None:
+        return v
+    x = strip_refs(e)
+    while x[0] == "agg" and (x[1].get("variant") in ("Ok", "Some") or (x[1].get("adt") == VALUE and x[1].get("variant") == "Bool")) and len(x[2]) == 1:
+        x = strip_refs(x[2][0])
+    neg = False
+    while x[0] == "unop" and x[1] == "Not":
+        neg, x = not neg, strip_refs(x[2])
+    if x[0] in ("const", "agg", "phi"):
+        return None
+    cx = pathsum.canon(x)
+    got = set()
+    for d, truth in switch_facts(w, body, p):
+        d = strip_refs(d)
+        dneg = False
+        while d[0] == "unop" and d[1] == "Not":
+            dneg, d = not dneg, strip_refs(d[2])
+        if pathsum.canon(d) == cx:
+            got.add((truth != dneg) != neg)
+    return got.pop() if len(got) == 1 else None
+
+
 def loop_reading(ctx, roles, name, cfg, root, ps, abi, tkeys, seed_want, decided_want):
     """K4 for per-element code written as a loop: the paths of one iteration from the loop's next()."""
     facts = roles.facts
@@ -619,7 +717,7 @@ def loop_reading(ctx, roles, name, cfg, root, ps, abi, tkeys, seed_want, decided
         bad.append("has a path through the loop body that takes an element and %s without evaluating the predicate for it" % ("goes on" if passed[0].truncated else "returns %s" % show_expr(passed[0].result)[:50]))
     exhaust = [q for q in exhaust if nxt(q) != "Some"]
     for q in exits:
-        tv, rv = verdict_on(facts, w, root, q, tkeys), bool_of(facts, q.result)
+        tv, rv = verdict_on(facts, w, root, q, tkeys), bool_on_path(facts, w, root, q, q.result)
         if tv is None or rv is None:
             unread.append("early exit with verdict %s returning %s" % (tv, show_expr(q.result)[:60]))
         elif not (tv is decided_want and rv is decided_want):
@@ -820,7 +918,14 @@ def analyse(ctx, cfg, facts, raw_facts, is_view):
                     ctx.check("DATA" not in s2.tags and s2.tags, "K5.predicate-sees-element", "%s: the predicate is evaluated against the element, not the outer data (%s)" % (name, cfg),
                               "%s evaluates the predicate against a value with provenance %s" % (name, sorted(s2.tags)), where=sx.where(), fn=sx.body.key, nontrivial=True)
                 elif "RULE#0" in recv:
-                    ctx.check(set(s2.tags) == {"DATA"}, "K5.elements-against-outer-data", "%s: an element written as an expression is evaluated against the outer data (%s)" % (name, cfg),
+                    # The provenance analysis keeps one tag set per local: the fields of a struct that carries the
+                    # per-element state (predicate, outer data, flag) share it.  Where the tags are not the outer data
+                    # alone but include it, the value itself is read: the operator's own `data` parameter, reached
+                    # through field reads of aggregates built in place and closure captures, is the outer data.
+                    clean = set(s2.tags) == {"DATA"}
+                    if not clean and "DATA" in s2.tags and len(sx.term["args"]) == 2:
+                        clean = strip_refs(sx.body.xtrace(sx.term["args"][1])) == ("arg", 1)
+                    ctx.check(clean, "K5.elements-against-outer-data", "%s: an element written as an expression is evaluated against the outer data (%s)" % (name, cfg),
                               "%s evaluates a literal element against a value with provenance %s instead of the outer data" % (name, sorted(s2.tags)), where=sx.where(), fn=sx.body.key, nontrivial=True)
             # ---------------- K4: the walk stops at the first deciding element
             adaptors = []
@@ -844,6 +949,12 @@ def analyse(ctx, cfg, facts, raw_facts, is_view):
                     ctx.ok("K4.short-circuit", "%s: predicate under short-circuiting %s (%s)" % (name, cons_path.rsplit("::", 1)[-1], cfg), nontrivial=True)
                     m = re.search(r"::(any|all)$", cons_path)
                     zero[abi] = {"any": False, "all": True}[m.group(1)] if m else None
+                    if re.search(r"::(find|position|rposition|try_fold|try_for_each)$", cons_path):
+                        # the consumer stops at the first element its closure singles out; WHICH verdict that is, and what
+                        # the operator answers then and at exhaustion, is decided by the closure and by what is done with
+                        # the consumer's result — no reading of that yet: not a pass
+                        ctx.unread("K4.decided-constant", "%s: the decided path returns %s (%s)" % (name, decided_want, cfg),
+                                   "%s: which verdict stops Iterator::%s, and the results on stopping and at exhaustion, were not read" % (name, cons_path.rsplit("::", 1)[-1]), where=b.where(abi), fn=b.key)
                 elif cons_path == "":
                     ctx.unread("K4.short-circuit", "%s: predicate site %s (%s)" % (name, ps.where(), cfg), "the iterator built by %s is consumed in a way that was not read" % apath.rsplit("::", 1)[-1], where=ps.where(), fn=ps.body.key)
                 else:
